@@ -157,6 +157,25 @@ ExtremeCasesOf(fam) ==
 UnderflowCases ==
     {<<"ExpWeibull", <<2, 1, 0>>, <<9, code>> >> : code \in 1..16}
       \cup {<<"GenGamma", <<2, 1, 0>>, <<9, code>> >> : code \in 1..8}
-ExtremeCases == UNION {ExtremeCasesOf(fam) : fam \in LawFamilies} \cup UnderflowCases
+(* overflow classes (slot 8): a LARGE first shape.  The documented densities of these families     *)
+(* carry a power  t^e  of  t = (x - loc) / scale  (Weibull, exponentiated Weibull: e = beta - 1;     *)
+(* generalised gamma: e = c m - 1; gamma: e = a - 1) times  exp(-t^beta)  resp.  exp(-t): far in    *)
+(* the upper tail,  t > 10^(308 / e),  the power exceeds the double range although the density       *)
+(* there is an ordinary number - 0 to double precision (an implementation that multiplies the two     *)
+(* factors forms inf * 0).  Code of the case (harness/c05.py overflow_par decodes it):                *)
+(*   Weibull    1..4: (alpha, beta, gamma) = (1, 100, 0), (2, 300, 0.5), (1, 1000, 0), (10, 60, 0)    *)
+(*   ExpWeibull 1..2: (alpha, beta, delta) = (1, 100, 2), (1000, 1000, 0.5)                            *)
+(*   GenGamma   1..2: (m, c, lambda_) = (2, 50, 1), (0.5, 1000, 0.001)                                 *)
+(*   ScipyGamma 1..2: (a, loc, scale) = (100, 0, 1), (1000, 0.5, 2)                                    *)
+(* (class vector nominal).  EVERY table of these four families (not only slot 8) gets the probes       *)
+(* x = loc + scale * t,  t = 1.5 T, 10 T, 1e6 T, T^2  with  T = 10^(308 / e)  wherever e > 0 and they  *)
+(* are finite (shape 25 of the extreme levels: T = 7e12), every table with an unbounded support two    *)
+(* abscissae 1e3 / 1e6 times beyond its 1 - 1e-12 quantile; r.novf counts the tabulated points whose  *)
+(* power term overflows (UpperTailProbed: at least 3 in every slot-8 table).                           *)
+OverflowCases ==
+    {<<"Weibull", <<2, 1, 0>>, <<8, code>> >> : code \in 1..4}
+      \cup {<<fam, <<2, 1, 0>>, <<8, code>> >> : fam \in {"ExpWeibull", "GenGamma", "ScipyGamma"}, code \in 1..2}
+MinOverflowProbes == 3
+ExtremeCases == UNION {ExtremeCasesOf(fam) : fam \in LawFamilies} \cup UnderflowCases \cup OverflowCases
 
 =============================================================================
